@@ -78,6 +78,10 @@ BY = {m.name: m for m in METHODS}
 BY["scrypt"].must_reject = ("{ _Bool term = 0; for (size_t j = 0; j < MAX_S; j++) if (j < in_slen) { char c = setting[PLEN + j]; "
                             "if (j < 11) { if (!alpha_ok((unsigned char)c)) bad = 1; } "       # N, r, p digits
                             "else if (!term) { if (c == '$') term = 1; else if (!alpha_ok((unsigned char)c)) bad = 1; } } }")  # salt up to its '$'
+# yescrypt: "$y$" params "$" salt [ "$" hash ]: the salt field (up to its '$', or the end) is base-64
+# only; parameter digits are base-64 (doc/crypt.5; yescrypt_r requires decode64 to consume the field)
+BY["yescrypt"].must_reject = ("{ int fld = 0; for (size_t j = 0; j < MAX_S; j++) if (j < in_slen) { char c = setting[PLEN + j]; "
+                              "if (c == '$') fld++; else if (fld <= 1 && !alpha_ok((unsigned char)c)) bad = 1; } }")
 BF_UNIT = ("crypt-bcrypt.c", ["__CPROVER_file_local_crypt_bcrypt_c_BF_crypt"], {"export_static": True})
 BF_PRE = ("__CPROVER_assume(in_slen >= 25);")     # prefix + cost + 22 salt characters at least
 for _n, _fn, _p in (("bcrypt", "crypt_bcrypt_rn", "$2b$"), ("bcrypt_a", "crypt_bcrypt_a_rn", "$2a$"),
